@@ -128,7 +128,11 @@ func (c *ServerConn) ServeOnce(storageClient StorageClient, stats *Stats) (err e
 			resp = new(Response)
 			resp.Status = "NOT_STORED"
 			err = nil
+			c.Shutdown() // the announced body was not read: framing is lost, close after the reply
 		} else {
+			if err == ErrValueTooLarge {
+				c.Shutdown() // same: the body of the refused command is still in the stream
+			}
 			// process client command format related error
 			resp = new(Response)
 			resp.Status = "CLIENT_ERROR"
